@@ -1,7 +1,7 @@
 (* C02 - Refining an allocation conserves tiling, module area and centroid.
    Statements only; every proof is [exact <lemma>]. *)
 From FrameModel Require Import Num.QcTac Geometry.Rect Alloc.Alloc Alloc.GeomExtra Alloc.RefinesFacts
-  Alloc.AcceptFacts Alloc.OpsFacts.
+  Alloc.AcceptFacts Alloc.OpsFacts Alloc.Hist Alloc.HistFacts.
 Open Scope list_scope.
 Open Scope Qc_scope.
 
@@ -58,3 +58,62 @@ Theorem C02_ov_mono : forall a b p q, is_inside a p = true -> is_inside b q = tr
   area_overlap a b <= area_overlap p q.
 Proof. exact ov_mono. Qed.
 Print Assumptions C02_ov_mono.
+
+(* ---- histories on shared objects (Alloc/Hist.v) ----
+   A program may keep every allocation it has built, call any of them again (refine / uniform_refinement_depth /
+   griddify / must_be_refined / max_refinement_depth / area / center, with any arguments), and set rect.fixed in
+   place on a cell between two calls; allocations derived from one another may hold the same Rectangle object, so
+   the flag may be seen by several of them.  [run_hist] is that program on the model: the state is the list of the
+   allocations built so far (current values), every step is the value function of Alloc.v on the current values -
+   nothing is remembered between calls.  Which allocations share an object is not part of C02: [HSetFixed] carries
+   the flags observed after the assignment, the model accepts them if they are a possible outcome (the addressed
+   cell carries the flag; a cell whose flag changed has the geometry of the addressed cell and carries the flag) and
+   goes on from them.  [hvalid aeps s]: s has at least one allocation and all of them are accepted by the constructor.
+   [event_ok eps aeps q (call, src, result)]: src - the values the target had when the call was made - is accepted,
+   and: a refinement call returned [ONew (Some new)] with [run_op call src = Some new], [refines src new] and
+   [accepted new] (the clauses of C02, with the fixed flags of that moment); a query returned the value function
+   of Alloc.v on src. *)
+
+(* setting fixed flags in place keeps an allocation accepted *)
+Theorem C02_flag_rel_accepted : forall aeps l l',
+  Forall2 (fun c c' => c' = c \/ exists b, c' = cset_fixed b c) l l' -> accepted aeps l -> accepted aeps l'.
+Proof. exact flag_rel_accepted. Qed.
+Print Assumptions C02_flag_rel_accepted.
+
+(* every call of every history succeeds and is a refinement of what its target was at that moment *)
+Theorem C02_run_hist_ok : forall eps aeps q ops, 0 <= aeps -> Forall hop_admissible ops ->
+  forall s, hvalid aeps s ->
+  hvalid aeps (fst (run_hist eps aeps q ops s)) /\ Forall (event_ok eps aeps q) (snd (run_hist eps aeps q ops s)).
+Proof. exact run_hist_ok. Qed.
+Print Assumptions C02_run_hist_ok.
+
+Theorem C02_hist_ok : forall eps aeps q cells ops, 0 <= aeps -> accepted aeps cells -> Forall hop_admissible ops ->
+  hist eps aeps q cells ops = Some (map snd (snd (run_hist eps aeps q ops (hinit cells)))) /\
+  hvalid aeps (fst (run_hist eps aeps q ops (hinit cells))) /\
+  Forall (event_ok eps aeps q) (snd (run_hist eps aeps q ops (hinit cells))).
+Proof. exact hist_ok. Qed.
+Print Assumptions C02_hist_ok.
+
+(* c.rect.fixed = b, c the cell of A[k] with centre (x, y) (the position of a cell in the list is no part of the
+   property; cells of an accepted allocation do not overlap, so the centre identifies the cell): whichever
+   allocations share that Rectangle object, afterwards that cell of A[k] carries the flag b, and every cell of every
+   allocation is as it was or - possibly, if it has the geometry of c - carries the flag b too ([set_rel]) *)
+Theorem C02_hset_fixed_spec : forall eps aeps q s k x y b after s' fl,
+  hstep eps aeps q (HSetFixed k x y b after) s = (s', OFixed fl) ->
+  fl = hfixed s' /\
+  exists c0 c1, find (at_centre x y) (hget s k) = Some c0 /\
+    find (at_centre x y) (hget s' k) = Some c1 /\ fixed (crect c1) = b /\
+    Forall2 (Forall2 (fun c c' => c' = c \/ (c' = cset_fixed b c /\ same_geom c0 c = true))) s s'.
+Proof. exact hset_fixed_spec. Qed.
+Print Assumptions C02_hset_fixed_spec.
+
+(* ... and the next refinement call on that allocation, whatever it is and whatever was asked of the
+   allocation before, hands that cell over whole *)
+Theorem C02_set_fixed_true_not_cut : forall eps aeps q s k x y after o' s1 fl,
+  0 <= aeps -> hvalid aeps s -> op_admissible o' ->
+  hstep eps aeps q (HSetFixed k x y true after) s = (s1, OFixed fl) ->
+  exists c j new parts, nth_error (hget s1 k) j = Some c /\ at_centre x y c = true /\ fixed (crect c) = true /\
+    snd (hstep eps aeps q (HApply k o') s1) = ONew (Some new) /\
+    new = List.concat parts /\ Forall2 cell_refines (hget s1 k) parts /\ nth_error parts j = Some [c].
+Proof. exact set_fixed_true_not_cut. Qed.
+Print Assumptions C02_set_fixed_true_not_cut.
